@@ -911,7 +911,8 @@ int EGLPNUM_TYPENAME_ILLread_constraint_expr (
 		{
 			if (haveCoef == 0)
 			{
-				return EGLPNUM_TYPENAME_ILLlp_error (state, "Coefficient without variable.\n");
+				rval = EGLPNUM_TYPENAME_ILLlp_error (state, "Coefficient without variable.\n");
+				goto CLEANUP;
 			}
 			else
 			{
